@@ -4,4 +4,16 @@ CLAIMED = {
    text="Generated projects (sub-slot efforts, fractional efficiencies, shared resources, teams, alternatives, ASAP/ALAP, six resolutions) are scheduled by the real code and every resource-slot of the usage ledger is checked against the double-booking invariants; a Hypothesis state machine additionally drives book / finish-and-release episodes on the real objects. Exploration: absence is not established, but every shared-slot configuration reachable by the generators is judged by an oracle that shares no code with the scheduler.",
    note="Trusts Hypothesis, the ProjectSpec renderer and the reading of slotTaskUsage/slotSecondsUsed as the ledger; forward/backward tasks sharing a slot are a recorded finding (F01) and are explored in a separate region campaign.",
    technique="property-based testing (Hypothesis composite generators + rule-based state machine) against ledger invariants"),
+ "C02": dict(
+   text="Generated calendars (own hours, shifts, default; several intervals per day, cross-midnight, day groups; IANA zones with DST transitions inside the horizon and date-line zones; single-day and ranged leaves, vacations, blocking bookings, global vacations and holidays; five resolutions; ASAP and ALAP) are scheduled by the real code and every booked ledger slot is judged by a calendar recomputed independently from the project model. Exploration level: the calendar oracle shares no code with scriptplan, so a scheduler bug and its calendar helper cannot be wrong together unnoticed.",
+   note="Trusts zoneinfo, the ProjectSpec renderer and the slot-alignment preconditions of DESIGN 3.1; one-directional by design (idle working time is C08's business).",
+   technique="property-based testing (Hypothesis) against an independent reference calendar"),
+ "C03": dict(
+   text="Generated efforts (whole slots, fractions of a slot, primes of minutes), efficiencies 0.1-4, six resolutions, contention, teams and alternatives, ASAP and ALAP; for every scheduled task the booked seconds weighted by efficiency are compared with the requested effort (one second of work tolerance), team members must hold identical slot/second maps and alternatives must not be mixed.",
+   note="Trusts the ledger as ground truth of bookings and the renderer; unequal-efficiency teams judged for the same-instants clause only.",
+   technique="property-based testing (Hypothesis) against an arithmetic oracle over the usage ledger"),
+ "C06": dict(
+   text="Generated projects with sub-slot efforts, mid-slot predecessors, milestones, ASAP/ALAP; each scheduled task's reported [start,end] is compared with its first/last booked slot and the seconds booked there (tightness and containment, 1 s rounding), milestones with the dependency bound recomputed from the model.",
+   note="Trusts ledger + reported dates extraction; milestone bound judged for forward milestones with all predecessors scheduled.",
+   technique="property-based testing (Hypothesis) with a validity predicate relating reported dates to the ledger"),
 }
